@@ -83,7 +83,7 @@ func (it *Iterator) Refresh() {
 	if it.Valid() {
 		itm := it.snap.db.ptrToItem(it.GetNode().Item())
 		it.iter.Close()
-		it.iter = it.snap.db.store.NewIterator(it.snap.db.iterCmp, it.buf)
+		it.iter = it.snap.db.store.NewIterator(it.snap.db.insCmp, it.buf)
 		it.iter.Seek(unsafe.Pointer(itm))
 		it.skipUnwanted()
 	}
@@ -111,7 +111,7 @@ func (m *Nitro) NewIterator(snap *Snapshot) *Iterator {
 	buf := snap.db.store.MakeBuf()
 	return &Iterator{
 		snap: snap,
-		iter: m.store.NewIterator(m.iterCmp, buf),
+		iter: m.store.NewIterator(m.insCmp, buf),
 		buf:  buf,
 	}
 }
